@@ -16,12 +16,9 @@ import (
 // validation orders the cookie domains so that the cookie constructor picks the longest
 // configured domain matching the request host; a SameSite value that passes validation never
 // makes the constructor panic
-// verif: unwind=6 strlen=8 also=C19 tunwind=8
+// verif: unwind=6 strlen=8 also=C19 tunwind=40
 func vh_C18_sort() {
 	n := ndChoice("ndomains", 4)
-	if verifThorough() {
-		n = ndChoice("ndomains-thorough", 5)
-	}
 	domains := make([]string, n)
 	for i := range domains {
 		domains[i] = ndString("domain")
